@@ -51,6 +51,10 @@ func (c11) Components() map[string]string {
 // call: I = [ref kind 0 tag 1 digest 2 full-tag 3 full-digest 4 mismatching digest, metadata 0 none 1 disjoint 2 colliding 3 reserved 4 disjoint-two, format, repeatPrevious, sleepSec]
 func (c11) Gen(r *rand.Rand, tier string, idx int) *core.Plan {
 	p := &core.Plan{World: map[string]int64{}}
+	if r.IntN(8) == 0 {
+		c11GenConcurrent(r, p)
+		return p
+	}
 	p.World["store"] = int64(r.IntN(5)) // 0 recording repo, 1 memory, 2 disk via NewOCIRepository, 3 disk behind wrapper, 4 memory presented as a remote registry
 	p.World["pluginSigner"] = int64(r.IntN(3) / 2)
 	p.World["annots"] = int64(r.IntN(4))
@@ -178,6 +182,9 @@ func c11Referrers(ctx context.Context, s oras.GraphTarget, subject ocispec.Descr
 
 func (l c11) Exec(env *core.Env) *core.Result {
 	p := env.Plan
+	if p.W("concurrent") == 1 {
+		return c11Concurrent(env)
+	}
 	res := &core.Result{}
 	world.ResetSerial()
 	ctx := context.Background()
